@@ -33,6 +33,12 @@ def argv_cases():
         for combo in itertools.product(("absent", "existing", "missing"), repeat=3):
             for names in (True, False, "also_for_absent_files"):
                 cases.append({"cmd": "sync", "truth": truth, "files": list(combo), "names": names})
+    # legal files with stand-alone "# type:" comments; existing but empty target files
+    for truth in ("class", "function", "argparse_function"):
+        for decor in ("type_comment", "empty_targets"):
+            for combo in (("existing", "existing", "existing"), ("existing", "existing", "absent"), ("existing", "absent", "existing"),
+                          ("absent", "existing", "existing")):
+                cases.append({"cmd": "sync", "truth": truth, "files": list(combo), "names": True, "decor": decor})
     # several files of the truth's kind: the first one is the truth; it must exist, the others are targets
     for truth in ("class", "function", "argparse_function"):
         for second in ("first_missing", "second_missing", "both_existing", "both_missing"):
@@ -60,7 +66,7 @@ def argv_cases():
 
 def fault_ops(tier):
     ops = []
-    states = ("missing", "nodef", "agree", "stale")
+    states = ("missing", "nodef", "agree", "stale", "empty")
     for truth in pj.KINDS:
         others = [k for k in pj.KINDS if k != truth]
         for pre in itertools.product(states, repeat=2):
@@ -201,7 +207,12 @@ class C20(core.Check):
                 p = os.path.join(root, pj.FILES[kind])
                 if st == "existing":
                     with open(p, "w") as f:
-                        f.write(pj.render(kind, "v1"))
+                        text = pj.render(kind, "v1")
+                        if case.get("decor") == "type_comment":
+                            text = "# type: this line is prose, not a type\n" + text + "\nprint(len('x'))  # type: also prose\n"
+                        if case.get("decor") == "empty_targets" and kind != case["truth"]:
+                            text = ""
+                        f.write(text)
                 second = case.get("second") if kind == case["truth"] else None
                 if second:
                     p2 = os.path.join(root, "second_" + pj.FILES[kind])
